@@ -763,15 +763,18 @@ func (r *PipelineRunner) SaveToStore() {
 				delete(r.jobsByID, job.ID)
 				r.jobsByPipeline[job.Pipeline] = removeJobFromList(r.jobsByPipeline[job.Pipeline], job)
 
-				err := r.outputStore.Remove(job.ID.String())
-				if err != nil {
-					log.
-						WithField("component", "runner").
-						WithField("jobID", job.ID.String()).
-						WithField("pipeline", job.Pipeline).
-						WithField("removalReason", removalReason).
-						WithError(err).
-						Errorf("Failed to remove logs from output store for job")
+				// The output store is optional (nil if the embedding application does not keep logs)
+				if r.outputStore != nil {
+					err := r.outputStore.Remove(job.ID.String())
+					if err != nil {
+						log.
+							WithField("component", "runner").
+							WithField("jobID", job.ID.String()).
+							WithField("pipeline", job.Pipeline).
+							WithField("removalReason", removalReason).
+							WithError(err).
+							Errorf("Failed to remove logs from output store for job")
+					}
 				}
 
 				log.
